@@ -736,6 +736,12 @@ fn part_schedules(thorough: bool) -> Result<Acc, String> {
         let mut found = false;
         for b in 0..=bound {
             let root = run_sched_child(hi, b, None, None, cap)?;
+            // the third preemption is explored only where it is affordable: harnesses with at most 90 scheduling points
+            let points: u64 = root["points_per_thread"].as_array().map(|a| a.iter().map(|x| x.as_u64().unwrap_or(0)).sum()).unwrap_or(0);
+            if b >= 3 && points > 90 {
+                total.bump("harnesses_limited_to_2_preemptions", 1);
+                break;
+            }
             if let Some(e) = root["error"].as_str() {
                 return Err(format!("schedule exploration failed in harness {:?}: {}", h.name, e));
             }
@@ -762,7 +768,7 @@ fn part_schedules(thorough: bool) -> Result<Acc, String> {
                     viol = Some((c, r["violation"].clone()));
                 }
             }
-            if b == bound || viol.is_some() {
+            if b == bound || viol.is_some() || (b == 2 && points > 90) {
                 total.evals += executions;
                 total.transitions += executions;
                 total.states += outcomes.len() as u64;
